@@ -128,3 +128,81 @@ package nexus
 //@   invariant v.rng
 //@   invariant forall n string :: locked(n in v.allocations) ==> n in v.allocations && v.allocations[n] == locked(v.allocations[n])
 //@   invariant forall s uint16, c uint16 :: locked(vlanUsed(v, s, c)) ==> vlanUsed(v, s, c) && v.sTagUsage[s][c] == locked(v.sTagUsage[s][c])
+
+// ---- client.go: hash-based central IPv4 allocation (C01) ----
+//
+// The subscriber cache (owned by mu) is the table of holders: subscriber id -> record, the
+// address held is record.IPv4Addr ("" = none). Allocation is serialised by allocMu.
+// addressesInUse collects every address held by a subscriber other than the caller;
+// allocateFromPool returns an address outside that set (or reports exhaustion), whatever the
+// hash says; AllocateIPForSubscriber is idempotent for a subscriber that holds an address.
+
+//@ type Client
+//@   owns mu: subscriberCache nteCache ispCache
+//@   owns allocMu:
+
+//@ func hashString
+//@   pure
+//@   modifies nothing
+
+//@ func parseIPv4
+//@   modifies nothing
+//@   ensures result == nil || (len(result) == 4 && fresh(result))
+
+//@ func parseIPNet
+//@   modifies nothing
+//@   ensures err == nil ==> result0 != nil && len(result0) == 4 && result1 != nil && len(result1.Mask) == 4
+
+//@ func (n *ipNet) Size
+//@   modifies nothing
+
+//@ func formatIP
+//@   modifies nothing
+
+//@ func (c *Client) addressesInUse
+//@   modifies nothing
+//@   ensures result != nil && fresh(result)
+//@   ensures forall id string :: locked(id in c.subscriberCache) && id != subscriberID && locked(c.subscriberCache[id]) != nil && locked(c.subscriberCache[id].IPv4Addr) != "" ==> locked(c.subscriberCache[id].IPv4Addr) in result
+
+//@ loop Client.addressesInUse#1
+//@   invariant used != nil && fresh(used)
+//@   invariant forall id string :: id in visited && id != subscriberID && c.subscriberCache[id] != nil && c.subscriberCache[id].IPv4Addr != "" ==> c.subscriberCache[id].IPv4Addr in used
+
+//@ func (c *Client) allocateFromPool
+//@   mode seq
+//@   requires pool != nil
+//@   modifies nothing
+//@   ensures err == nil ==> forall id string :: old(id in c.subscriberCache) && id != subscriberID && old(c.subscriberCache[id]) != nil && old(c.subscriberCache[id].IPv4Addr) != "" ==> old(c.subscriberCache[id].IPv4Addr) != result
+
+//@ loop Client.allocateFromPool#1
+//@   invariant used != nil && forall id string :: old(id in c.subscriberCache) && id != subscriberID && old(c.subscriberCache[id]) != nil && old(c.subscriberCache[id].IPv4Addr) != "" ==> old(c.subscriberCache[id].IPv4Addr) in used
+
+//@ func (c *Client) GetSubscriber
+//@   modifies nothing
+//@   ensures result1 == locked(id in c.subscriberCache) && (result1 ==> result == locked(c.subscriberCache[id]))
+
+//@ func (c *Client) GetISP
+//@   modifies nothing
+
+// TypedStore (generic): the distributed key-value store is outside the Go heap model.
+//@ func (t *TypedStore) Get
+//@   trusted store read + json.Unmarshal into a new object: returns a fresh non-nil object or an error
+//@   modifies nothing
+//@   ensures err == nil ==> result != nil && fresh(result)
+//@ func (t *TypedStore) Put
+//@   trusted json.Marshal + store write: the Go heap is only read; fails nondeterministically
+//@   modifies nothing
+
+//@ func (c *Client) SaveSubscriber
+//@   requires sub != nil
+//@   modifies sub.UpdatedAt
+
+// AllocateIPForSubscriber: a subscriber that holds an address gets it again and nothing is
+// written; a failed save leaves the subscriber without an address (it goes back into
+// circulation); on success the returned address is the one recorded for the subscriber.
+//@ func (c *Client) AllocateIPForSubscriber
+//@   mode seq
+//@   ensures old(subscriberID in c.subscriberCache) && old(c.subscriberCache[subscriberID]) != nil && old(c.subscriberCache[subscriberID].IPv4Addr) != "" ==> err == nil && result == old(c.subscriberCache[subscriberID].IPv4Addr) && c.subscriberCache[subscriberID].IPv4Addr == result
+//@   ensures err == nil && old(subscriberID in c.subscriberCache) && old(c.subscriberCache[subscriberID]) != nil ==> old(c.subscriberCache[subscriberID]).IPv4Addr == result
+//@   ensures err != nil ==> (old(subscriberID in c.subscriberCache) && old(c.subscriberCache[subscriberID]) != nil ==> old(c.subscriberCache[subscriberID]).IPv4Addr == old(c.subscriberCache[subscriberID].IPv4Addr))
+//@   ensures err == nil ==> forall id string :: old(id in c.subscriberCache) && id != subscriberID && old(c.subscriberCache[id]) != nil && old(c.subscriberCache[id].IPv4Addr) != "" && old(c.subscriberCache[subscriberID].IPv4Addr) == "" ==> old(c.subscriberCache[id].IPv4Addr) != result
